@@ -570,6 +570,9 @@ class ShiftInterp:
                 if m in ("copy", "astype", "ravel", "flatten", "squeeze", "reshape", "tolist"):
                     return ST(base.kind, base.k, base.axes if m in ("copy", "astype") else None, cval=base.cval)
                 if m in ("max", "min", "mean"):
+                    ini = next((k.value for k in e.keywords if k.arg == "initial"), None)
+                    if ini is not None and not base.is_inv and ast.unparse(ini).replace(" ", "") not in ("-np.inf", "np.inf", "-numpy.inf", "numpy.inf", "-math.inf", "math.inf"):
+                        return self._conflict(f"`initial={ast.unparse(ini)}` bounds the reduction of {base!r} by an absolute constant", e)
                     return self._reduce(base, self._axis_kw(e, 0), e)
                 if m == "sum":
                     if base.kind == "shift" and base.k:
@@ -612,6 +615,13 @@ class ShiftInterp:
             return self._reduce(a0, self._axis_kw(e), e, lse=True)
         if name in ("numpy.max", "numpy.min", "numpy.amax", "numpy.amin", "numpy.mean", "numpy.median", "numpy.percentile", "numpy.quantile", "builtins.max", "builtins.min", "numpy.average"):
             ax = self._axis_kw(e, 2 if name in ("numpy.percentile", "numpy.quantile") else 1)
+            # max(x, initial=c) is max(max(x), c): an absolute bound mixed into an offset-dependent value
+            ini = next((k.value for k in e.keywords if k.arg == "initial"), None)
+            if ini is not None and a0.kind in ("shift", "scale") and not a0.is_inv:
+                txt = ast.unparse(ini).replace(" ", "")
+                neutral = ("-np.inf", "-numpy.inf", "-math.inf", "-inf", "float('-inf')") if name.endswith(("max", "amax")) else ("np.inf", "numpy.inf", "math.inf", "inf", "float('inf')")
+                if txt not in neutral:
+                    return self._conflict(f"`initial={ast.unparse(ini)}` bounds the reduction of {a0!r} by an absolute constant (the result follows the offset only on one side of it)", e)
             return self._reduce(a0, ax, e)
         if name in ("numpy.sum", "builtins.sum", "numpy.cumsum"):
             if a0.kind == "shift" and a0.k:
@@ -625,7 +635,11 @@ class ShiftInterp:
                     return inv(a0.axes)
                 self.hazards.append((e, a0))
                 return scale(a0.k, a0.axes)
-            return a0 if a0.kind in ("conflict", "unknown") else self._unknown("exp of a scale-typed value", e)
+            if a0.kind in ("conflict", "unknown"):
+                if self.strict_exp and a0.kind == "conflict":
+                    self.hazards.append((e, a0))  # not a max-shifted value: nothing bounds the argument
+                return a0
+            return self._unknown("exp of a scale-typed value", e)
         if name in ("numpy.log", "math.log"):
             if a0.kind == "scale":
                 return shift(a0.k, a0.axes)
